@@ -24,7 +24,38 @@ var noopPrefixes = []string{
 	"(*github.com/semihalev/sdns/internal/metric.",
 }
 
+// pureIntrinsics may run during speculation (no engine-state effects).
+var pureIntrinsics = map[string]bool{}
+
+func init() {
+	for _, n := range []string{"internal/bytealg.IndexByte", "internal/bytealg.IndexByteString", "internal/stringslite.IndexByte",
+		"strings.IndexByte", "bytes.IndexByte", "strings.LastIndexByte", "bytes.LastIndexByte", "internal/bytealg.LastIndexByteString",
+		"internal/bytealg.LastIndexByte", "internal/bytealg.Equal", "bytes.Equal", "internal/bytealg.Compare", "bytes.Compare",
+		"internal/bytealg.CompareString", "strings.Compare", "runtime.cmpstring", "internal/bytealg.Count", "internal/bytealg.CountString",
+		"internal/bytealg.Index", "internal/bytealg.IndexString", "strings.Index", "bytes.Index", "internal/stringslite.Index",
+		"internal/abi.NoEscape", "internal/abi.Escape", "runtime.KeepAlive", "(*strings.Builder).copyCheck",
+		"(time.Time).Add", "(time.Time).Sub", "(time.Time).Before", "(time.Time).After", "(time.Time).Equal", "(time.Time).Compare",
+		"(time.Time).IsZero", "(time.Time).UnixNano", "(time.Time).Round", "(time.Time).UTC", "(time.Time).Local", "time.Unix",
+		"(*sync.Mutex).Lock", "(*sync.Mutex).Unlock", "(*sync.RWMutex).Lock", "(*sync.RWMutex).Unlock", "(*sync.RWMutex).RLock", "(*sync.RWMutex).RUnlock",
+		"internal/race.Enable", "internal/race.Disable", "internal/race.Acquire", "internal/race.Release", "internal/race.ReleaseMerge",
+		"internal/race.Read", "internal/race.Write", "internal/race.ReadRange", "internal/race.WriteRange",
+	} {
+		pureIntrinsics[n] = true
+	}
+}
+
 func lookupIntrinsic(ex *Exec, fn *ssa.Function, name string) (intrinsic, bool) {
+	h, ok := lookupIntrinsic2(ex, fn, name)
+	if ok && ex.speculating > 0 && !pureIntrinsics[name] {
+		if fn.Name() == "vTier" || isNoopName(ex, name) {
+			return h, true
+		}
+		panic(specAbort{})
+	}
+	return h, ok
+}
+
+func lookupIntrinsic2(ex *Exec, fn *ssa.Function, name string) (intrinsic, bool) {
 	if h, ok := intrinsicTable[name]; ok {
 		return h, true
 	}
@@ -64,6 +95,15 @@ func lookupIntrinsic(ex *Exec, fn *ssa.Function, name string) (intrinsic, bool) 
 		}
 	}
 	return nil, false
+}
+
+func isNoopName(ex *Exec, name string) bool {
+	for _, p := range noopPrefixes {
+		if strings.HasPrefix(name, p) {
+			return true
+		}
+	}
+	return false
 }
 
 func noop(ex *Exec, caller *frame, fn *ssa.Function, args []Value) (Value, *goPanic) {
